@@ -502,7 +502,7 @@ func (l *leader) setCommitIndex(index uint64) {
 			}
 			l.logger.Info("config is stable")
 			for _, t := range l.waitStable {
-				t.reply(l.configs.Latest)
+				t.reply(l.configs.Latest.clone()) // the caller may edit what it gets
 			}
 			l.waitStable = nil
 		} else {
